@@ -178,3 +178,13 @@ def validate_calls(batch: dict, *, spec="TraceFn.tla", cfg="TraceFn.cfg", worker
     st = parse_stats(out) or {}
     st.update({"wall_s": round(wall, 2), "bytes": size, "groups": n, "calls": sum(len(g) for g in batch["groups"])})
     return fails, st
+
+
+def action_coverage(out: str):
+    """Per-(sub)action counts from `-coverage 1`: {module!Action@line: [distinct states found, states generated]};
+    an action with 0 generated states was never taken (vacuity)."""
+    cov = {}
+    pat = re.compile(r"^<(\w+) line (\d+), col \d+ to line \d+, col \d+ of module (\w+)(?: \((\d+) \d+ \d+ \d+\))?>: (\d+):(\d+)", re.M)
+    for m in pat.finditer(out):
+        cov[f"{m.group(3)}!{m.group(1)}@{m.group(4) or m.group(2)}"] = [int(m.group(5)), int(m.group(6))]
+    return cov
